@@ -1,18 +1,18 @@
 SPECIFICATION Spec
 CONSTANTS
-  Pair = "LLTEM"
+  Pair = "DC"
   MaxDepth = 4
-  MaxCopies = 2
+  MaxCopies = 0
   MaxEdits = 1
   MaxReopens = 1
-  EditOps = {"channels", "timing_mark"}
-  CopyModes = {"plain-same", "mask-same", "extent-same", "plain-other", "extent-other"}
-  MaskNames = {"lo", "mid"}
+  EditOps = {"channels"}
+  CopyModes = {"plain-same"}
+  MaskNames = {"lo"}
   Focus = TRUE
   BadValues = FALSE
   ValuesPerOp = 1
-  EditWhen = "copied"
-  Extras = 0
+  EditWhen = "always"
+  Extras = 2
   Deviations = {}
 VIEW vw
 INVARIANT Mutual
